@@ -10,7 +10,7 @@ CHECKS = {
    note="Trusts the reference model (harness/src/model.rs); its undocumented corners were calibrated against the pinned tree (DESIGN 4, Appendix A). Bounded program size/depth and document universe.",
    tech="differential PBT against a reference model (proptest choice streams + bounded-exhaustive enumeration)", ref="DESIGN.md sections 4, 5/C01"),
  "C02": dict(
-   text="Every composite node of the verbose evaluation record is recomputed from its children's recorded statuses (file, rule, rule/when/type conditions, when blocks, or-lines, query blocks, type blocks, rule references incl. negation) on proptest-generated wide programs; plus bounded-exhaustive enumeration of all PASS/FAIL/SKIP leaf assignments of CNF shapes at the 8 call sites of the combinator; root status vs non-verbose output and exit code.",
+   text="Every composite node of the verbose evaluation record is recomputed from its children's recorded statuses (file, rule, rule/when/type conditions, when blocks, or-lines, query blocks, type blocks, rule references incl. negation) on proptest-generated wide programs; plus bounded-exhaustive enumeration of all PASS/FAIL/SKIP leaf assignments of CNF shapes at the 8 call sites of the combinator; root status vs non-verbose output and exit code. A further stage gives 2-3 documents to one validate --print-json invocation and checks every record of the stream, each against the same document evaluated alone, and the exit code against the record roots.",
    note="Leaf statuses are taken from the record itself (C01 judges leaves). Negation flags and block sizes are read from the tool's own parse tree. Blocks whose query carries a filter or variable are not judged (their query evaluation leaves records inside the block node).",
    tech="invariant checking over generated evaluation records + exhaustive shape enumeration with a three-line combinator oracle", ref="DESIGN.md 5/C02"),
  "C03": dict(
@@ -38,7 +38,7 @@ CHECKS = {
    note="Exempt as documented: emptiness test on a bare variable; `%v[*]` (no-op on the result set) and filters directly after a variable are not treated as textual substitutions.",
    tech="metamorphic testing (program transformation) over proptest-generated programs", ref="DESIGN.md 5/C15"),
  "C05": dict(
-   text="Every case runs 5 times as a fresh process of the real binary in 16 modes (validate console/json/yaml/structured json,yaml,junit,sarif/-v/-p; test console/json/yaml/junit; parse-tree json/yaml; rulegen) under varied irrelevant environment (HOME, TZ, LANG, cwd): equal exit status, byte-identical structured output (JUnit time masked), console output identical as a multiset of lines; plus 5 interleaved in-process evaluations.",
+   text="Every case runs 5 times as a fresh process of the real binary in 16 modes (validate console/json/yaml/structured json,yaml,junit,sarif/-v/-p; test console/json/yaml/junit; parse-tree json/yaml; rulegen) under varied irrelevant environment (HOME, TZ, LANG, cwd): equal exit status, byte-identical structured output (JUnit time masked), console output identical as a multiset of lines; plus 5 interleaved in-process evaluations. Stage 'batch': one validate --structured invocation over 2-3 documents must report per document exactly what an invocation of its own reports (nothing carried over from what was evaluated earlier in the process).",
    note="Five runs per mode; an order leak over n>=3 hashed entries escapes a case with probability <= (1/6)^4. NO_COLOR held fixed.",
    tech="repeated-execution differential testing across fresh processes (hash seeds) on proptest-generated inputs", ref="DESIGN.md 5/C05"),
  "C06": dict(
@@ -50,7 +50,7 @@ CHECKS = {
    note="In-process calls use catch_unwind (panic site = signature); stack-exhausting inputs go through the binary. A watchdog hit on anything but the designated probe of known finding F33 is reported as inconclusive (exit 2). libFuzzer targets under fuzz/ extend this in the thorough tier.",
    tech="robustness fuzzing: grammar-aware mutation + enumerated hazard product (proptest) with crash/grammar oracles", ref="DESIGN.md 5/C08, 6"),
  "C10": dict(
-   text="Every {path,value} pair of the structured report resolves in the harness's copy of the document to exactly that value; every unresolved check's reached point is an instance of a prefix of its clause's query with the next segment missing; every Path=..[L,C] of a scalar equals the position recorded by the harness's own JSON/YAML writers (random layout).",
+   text="Every {path,value} pair of the structured report resolves in the harness's copy of the document to exactly that value; every unresolved check's reached point is an instance of a prefix of its clause's query with the next segment missing; every Path=..[L,C] of a scalar equals the position recorded by the harness's own JSON/YAML writers (random layout). Layouts include leading blank lines / indentation, comments, `---`, varying indentation units.",
    note="`to` is judged only when the clause compares with a data query; only scalar positions are judged; remaining_query text is not judged.",
    tech="invariant checking of generated reports against the generated document and writer-recorded positions (proptest)", ref="DESIGN.md 5/C10"),
  "C11": dict(
